@@ -30,6 +30,19 @@ def chk_consistency(inp):
             return bad("structure function does not scale as r0^(-5/3)")
         if not numpy.allclose(KL.stf_vonKarman(r / r0, L0 / r0), D, rtol=1e-9):
             return bad("KL copy stf_vonKarman(r/r0, L0/r0) differs from structure_function_vk(r, r0, L0)", None, None)
+    # large outer scales (L0 >= 1 km): still the von Karman form - agreement with 2(C(0)-C(r)) where phase_covariance resolves it (r >= 0.1 L0) and saturation
+    for (r0, L0) in ((0.2, 1000.), (0.15, 2500.), (0.3, 1e4)):
+        rl = L0 * numpy.array([0.1, 0.3, 1.0, 3.0, 30.0])
+        Dl = aotools.structure_function_vk(rl.copy(), r0, L0)
+        C0l = float(aotools.phase_covariance(0., r0, L0))
+        Cl = aotools.phase_covariance(rl.copy(), r0, L0).astype(float)
+        if not numpy.allclose(Dl, 2 * (C0l - Cl), rtol=5e-3):
+            k = int(numpy.argmax(abs(Dl / (2 * (C0l - Cl)) - 1)))
+            return bad("D(r) != 2 (C(0) - C(r)) at r=%g for a large outer scale (r0=%g, L0=%g)" % (rl[k], r0, L0), float(Dl[k]), float(2 * (C0l - Cl[k])))
+        if abs(Dl[-1] / (2 * 0.0863 * (L0 / r0) ** (5. / 3)) - 1) > 5e-3:
+            return bad("structure function does not saturate at twice the variance for L0=%g" % L0, float(Dl[-1]), float(2 * 0.0863 * (L0 / r0) ** (5. / 3)))
+        if not numpy.allclose(KL.stf_vonKarman(rl / r0, L0 / r0), Dl, rtol=1e-9):
+            return bad("KL copy differs from structure_function_vk for L0=%g" % L0)
     # the series copy (YAO) is an approximation of the same model for small r/L0: within 5e-4 of the closed form for r/L0 <= 0.05
     for L in (20., 100., 3.):
         rs = L * numpy.array([1e-4, 1e-3, 5e-3, 0.01, 0.02, 0.035, 0.05])
